@@ -588,7 +588,6 @@ var errorIface = types.Universe.Lookup("error").Type().Underlying().(*types.Inte
 
 var _ = sort.Strings
 
-
 // ---- R06.7 the cancellation watcher of a call is stopped on every exit, including panics ----
 
 func checkWatcherStopped(c *core.Ctx) {
